@@ -123,7 +123,18 @@ func SimplePDF(pages []SimplePage) []byte {
 
 func contentStream(p SimplePage, content string) *Stream {
 	if p.Unreadable {
-		return &Stream{D: Dict{{"Filter", Name("FlateDecode")}}, Raw: []byte("\x00\x01 this is not a zlib stream \xff\xfe"), LenMode: "direct"}
+		// the filter entry is spelled as a name, as a one-element array or as a
+		// two-stage chain whose second stage fails (by the length of the content)
+		raw := []byte("\x00\x01 this is not a zlib stream \xff\xfe")
+		var filter any = Name("FlateDecode")
+		switch len(content) % 3 {
+		case 1:
+			filter = Arr{Name("FlateDecode")}
+		case 2:
+			filter = Arr{Name("ASCIIHexDecode"), Name("FlateDecode")}
+			raw = []byte("00 01 20 74 68 69 73 20 69 73 20 6e 6f 74 20 7a 6c 69 62 ff fe>")
+		}
+		return &Stream{D: Dict{{"Filter", filter}}, Raw: raw, LenMode: "direct"}
 	}
 	return &Stream{Raw: []byte(content), LenMode: "direct"}
 }
